@@ -482,6 +482,19 @@ impl LogReader {
     }
 }
 
+/// Crate-only methods
+impl LogReader {
+    /**
+    Returns true if every byte of the log file was consumed by the records read so far.
+
+    This is false when reading stopped at a partially written record at the tail of the file e.g.
+    because the previous writer died in the middle of a write.
+    */
+    pub(crate) fn is_fully_consumed(&self) -> LogIOResult<bool> {
+        Ok((self.current_cursor_position as u64) >= self.len()?)
+    }
+}
+
 /// Private methods.
 impl LogReader {
     /**
